@@ -41,6 +41,7 @@ type goxScenario struct {
 	SQL      string            `json:"sql"`
 	CPU      int               `json:"cpu"`
 	Thorough bool              `json:"-"`
+	FreeRows int               `json:"free_rows,omitempty"`   // C13: the free-running runs use t.csv with this many rows (real threads need work to overlap)
 	Loop     bool              `json:"loop_points,omitempty"` // quick tier: every loop iteration in lib/query is a scheduling point too (thorough: all scenarios)
 }
 
